@@ -19,7 +19,7 @@ var Rules = []string{
 	"no-zero-enum", "enum-out-of-range", "unknown-type", "unknown-import-type", "service-field", "service-element",
 	"struct-message-field", "struct-list-field", "struct-self", "struct-cycle", "channel-non-message", "missing-import",
 	"circular-import", "oneway-output", "oneway-channel", "input-non-message", "output-non-message", "subservice-channel",
-	"dup-method", "dup-import", "dup-option", "dup-struct-field", "dup-definition-across-files",
+	"dup-method", "dup-import", "dup-option", "dup-struct-field", "dup-definition-across-files", "struct-any-field",
 }
 
 type site struct {
@@ -167,7 +167,7 @@ func Mutate(r *hx.Rand, orig *Bundle, rule string) (m *Bundle, element string, o
 			s.d.Fields[i].Ty = Ty{List: rule == "service-element", Base: BaseT{Kind: BName, Name: svc}}
 		}
 		return b, s.d.Fields[i].Name, true
-	case "struct-message-field", "struct-list-field", "struct-self", "struct-cycle", "dup-struct-field":
+	case "struct-message-field", "struct-list-field", "struct-self", "struct-cycle", "dup-struct-field", "struct-any-field":
 		s, ok := pick(b.sites("struct"))
 		if !ok {
 			return nil, "", false
@@ -180,6 +180,13 @@ func Mutate(r *hx.Rand, orig *Bundle, rule string) (m *Bundle, element string, o
 			}
 			s.d.SFields = append(s.d.SFields, SField{Name: "badMessage", Ty: Ty{Base: BaseT{Kind: BName, Name: mn}}})
 			return b, "badMessage", true
+		case "struct-any-field":
+			k := BAny
+			if r.Intn(2) == 0 {
+				k = BAnyMessage
+			}
+			s.d.SFields = append(s.d.SFields, SField{Name: "badDynamic", Ty: Ty{Base: BaseT{Kind: k}}})
+			return b, "badDynamic", true
 		case "struct-list-field":
 			s.d.SFields = append(s.d.SFields, SField{Name: "badList", Ty: Ty{List: true, Base: BaseT{Kind: BName, Name: "int32"}}})
 			return b, "badList", true
